@@ -41,8 +41,12 @@ Definition clean_query (o : clean_opts) (i : idx) (c : cpy) : bool :=
   N.eqb (k_node c) (co_node o) && has_ok (co_bad o) c
   && (match co_size o with None => wants_changes (co_goal o) (k_wants c) | Some _ => true end)
   && acq_ok i (co_acqs o) (k_file c) && opt_mem (co_listed o) (k_file c) && days_ok o i (k_file c).
+(* node clean --target: files_in_groups with state_expr = healthy & (StorageNode.id != node.id): the copy on the node being
+   cleaned does not make the file "available in the target" *)
+Definition in_group_healthy_except (i : idx) (skip g f : N) : bool :=
+  existsb (fun c => N.eqb (k_file c) f && N.eqb (group_of i (k_node c)) g && healthy c && negb (N.eqb (k_node c) skip)) (copies i).
 Definition target_ok (o : clean_opts) (i : idx) (c : cpy) : bool :=
-  match co_targets o with [] => true | ts => in_all_targets i ts (k_file c) end.
+  match co_targets o with [] => true | ts => forallb (fun g => in_group_healthy_except i (co_node o) g (k_file c)) ts end.
 
 (* already in the wanted state (counts toward --size, is not updated) *)
 Definition satisfied (goal w : wants) : bool := wants_eqb w goal || (wants_eqb goal WM && wants_eqb w WN).
